@@ -25,15 +25,16 @@ import (
 type c08Handle struct{ path string }
 
 type c08World struct {
-	files    map[string]string // path -> content
-	handles  map[*os.File]*c08Handle
-	ops      int
-	faults   int  // remaining fault budget
-	payload  *stream_config.ConfigurationPayload
-	decodeOK bool
-	reloads  []bool // outcome of the k-th reloadFlows call (true = succeeds)
-	reloaded int
-	status   int
+	files           map[string]string // path -> content
+	handles         map[*os.File]*c08Handle
+	ops             int
+	faults          int // remaining fault budget
+	payload         *stream_config.ConfigurationPayload
+	decodeOK        bool
+	reloads         []bool // outcome of the k-th reloadFlows call (true = succeeds)
+	reloaded        int
+	reloadFailsLate bool
+	status          int
 	// the configuration the "running engine" was last (re)loaded from
 	loadedFrom map[string]string
 }
@@ -190,6 +191,12 @@ func verifStub_routing_HandlingDataManager_reloadFlows(rd *HandlingDataManager) 
 		ok = c08.reloads[k]
 	}
 	if !ok {
+		// reloadFlows can fail early (dry-run validation: the running engine is untouched) or late
+		// (after the new engine has been installed: HAProxy endpoint registration, metrics reload)
+		if c08.reloadFailsLate {
+			c08.loadedFrom = c08Snapshot()
+			return fmt.Errorf("failed to load metrics config")
+		}
 		return fmt.Errorf("validation failed")
 	}
 	c08.loadedFrom = c08Snapshot()
@@ -279,8 +286,11 @@ func c08Setup() {
 	verifSetenv("LUNAR_PROXY_METRICS_CONFIG", "/etc/lunar/metrics.yaml")
 	c08.files["/etc/lunar/flows/f1.yaml"] = "flow-one"
 	c08.files["/etc/lunar/quotas/q1.yaml"] = "quota-one"
-	if verifBool("has_gateway_config") {
+	switch verifChoose("gateway_config", 3) {
+	case 1:
 		c08.files["/etc/lunar/gateway_config.yaml"] = "gateway-v1"
+	case 2:
+		c08.files["/etc/lunar/gateway_config.yaml"] = "" // the shipped default is an empty file
 	}
 	c08.files["/etc/lunar/metrics.yaml"] = "metrics-v1"
 	c08.loadedFrom = c08Snapshot()
@@ -297,6 +307,9 @@ func VerifC08Update() {
 	c08.decodeOK = !verifBool("body_undecodable")
 	c08.faults = int(verifParam("faults", 1))
 	c08.reloads = []bool{!verifBool("reload_fails"), true}
+	if !c08.reloads[0] {
+		c08.reloadFailsLate = verifBool("reload_fails_late")
+	}
 	rd := &HandlingDataManager{}
 	var handler func(http.ResponseWriter, *http.Request)
 	if verifParam("mode", 0) == 0 {
